@@ -24,6 +24,7 @@ mod c11;
 mod c12;
 mod c13;
 mod c14;
+mod c16;
 mod c17;
 mod c18;
 mod c19;
@@ -106,6 +107,11 @@ const PROPS: &[PropDef] = &[PropDef {
     level: "exploration",
     run: c14::run,
     replay: c14::replay,
+}, PropDef {
+    id: "C16",
+    level: "exploration",
+    run: c16::run,
+    replay: c16::replay,
 }, PropDef {
     id: "C17",
     level: "exploration",
